@@ -162,7 +162,7 @@ def r2(ctx):
         t = dispatch.predicate_table(ctx, "is_get_key_command")
         trues = sorted(op for op, vals in t.items() if vals == {1})
         mixed = [op for op, vals in t.items() if vals not in ({0}, {1})]
-        rep.check(trues == [0x0C, 0x0D] and not mixed, "is_get_key_command", "true exactly for 0x0c, 0x0d", "is_get_key_command is true for %s (protocol: only GetK 0x0c and GetKQ 0x0d echo the key)" % [hex(x) for x in trues], f.one(HANDLER + "::is_get_key_command").loc())
+        rep.check(trues == [0x0C, 0x0D] and not mixed, "is_get_key_command", "true exactly for 0x0c, 0x0d", "is_get_key_command is true for %s (protocol: only GetK 0x0c and GetKQ 0x0d echo the key)" % [hex(x) for x in trues], safe_loc(f, HANDLER + "::is_get_key_command"))
     gb = f.one(HANDLER + "::get")
     for op in (0x00, 0x09, 0x0C, 0x0D):
         hdr = Struct(None, None, 0, OrderedDict([("opcode", op)]), F(P("get_request"), "header"))
